@@ -104,7 +104,7 @@ def firstFor (W : World) (ref : String) : Option Nat :=
     | none => false
     | some e => isUpdater e && e.ref == ref)
 
-def isRelevantGittufRef (r : String) : Bool := r.startsWith gittufPrefix && r != policyStagingRef
+def isRelevantGittufRef (r : String) : Bool := hasPrefix r gittufPrefix && r != policyStagingRef
 
 /-- `GetReferenceUpdaterEntriesInRangeForRef(first, last, ref)`: indices in log order -/
 def range (W : World) (first last : Nat) (ref : String) : List Nat :=
